@@ -1,8 +1,10 @@
 //! `h3run`: executes case lines against the real hyperium/h3 code in-process and prints one
 //! canonical result line per case (the Lean driver `h3drv` prints the model's and the
 //! specification's answer for the same lines).
+mod c12_sim;
 mod e_c02;
 mod e_c05;
+mod e_c12;
 mod e_c13;
 mod e_c15;
 mod e_c16;
@@ -21,6 +23,7 @@ fn dispatch(w: &[&str]) -> String {
         Some("dgram") => e_c18::handle(w),
         Some("set") => e_c13::handle(w),
         Some("cell") => e_c05::handle(w),
+        Some("hdr") => e_c12::handle(w),
         Some("quinn") => e_c17::handle(w),
         Some("pint") | Some("huff") | Some("pstr") => e_c15::handle(w),
         Some("frame") | Some("fs") => e_c02::handle(w),
